@@ -73,14 +73,18 @@ class FlowJax(Flow):
         x = jnp.asarray(x, dtype=self.dtype)
         x_prime, log_abs_det_jacobian = self.rescale(x)
         x_prime = jnp.asarray(x_prime, dtype=self.dtype)
-        z, log_abs_det_jacobian_flow = self._flow.forward(x_prime)
+        z, log_abs_det_jacobian_flow = jax.vmap(
+            self._flow.bijection.inverse_and_log_det
+        )(x_prime)
         return xp.asarray(z), xp.asarray(
             log_abs_det_jacobian + log_abs_det_jacobian_flow
         )
 
     def inverse(self, z, xp: Callable = jnp):
         z = jnp.asarray(z, dtype=self.dtype)
-        x_prime, log_abs_det_jacobian_flow = self._flow.inverse(z)
+        x_prime, log_abs_det_jacobian_flow = jax.vmap(
+            self._flow.bijection.transform_and_log_det
+        )(z)
         x_prime = jnp.asarray(x_prime, dtype=self.dtype)
         x, log_abs_det_jacobian = self.inverse_rescale(x_prime)
         return xp.asarray(x), xp.asarray(
